@@ -97,7 +97,18 @@ func vfC17SrvCapNotInForce(capNow int) string {
 		head := lines[0]
 		var isFsm, isAccept, inSem, isServe bool
 		for _, l := range lines[1:] {
-			if strings.HasPrefix(l, "\t") || strings.HasPrefix(l, "created by ") {
+			if strings.HasPrefix(l, "\t") {
+				continue
+			}
+			if strings.HasPrefix(l, "created by ") {
+				// a goroutine that was started but has not run yet shows only the compiler's wrapper as
+				// its frame; who created it tells what it is
+				switch {
+				case strings.Contains(l, "net/http.(*Server).Serve"):
+					isServe = true // a connection goroutine (conn.serve), possibly not started yet
+				case strings.Contains(l, "/pkg/util/sem.(*Semaphore).SetMaxCount"):
+					return "" // a capacity change is being applied
+				}
 				continue
 			}
 			switch {
